@@ -123,9 +123,27 @@ func urlText(r *rng, noColon bool) string {
 	return s
 }
 
+// queryShapes: the ways a query string can be put together besides key=value pairs joined by '&' — keys without '=' in every
+// position, empty pairs, a leading / trailing / doubled '&', '=' alone, repeated keys, ';' inside pairs
+func queryShapes() []string {
+	var out []string
+	base := []string{"secret=JBSWY3DPEHPK3PXP", "issuer=ACME", "digits=8", "period=45", "algorithm=SHA256"}
+	for _, odd := range []string{"lock", "", "=", "=v", "k=", "a;b=c", "digits", "secret", "%zz", "x=%zz", "k=v=w"} {
+		for pos := 0; pos <= len(base); pos++ {
+			kv := append(append(append([]string(nil), base[:pos]...), odd), base[pos:]...)
+			out = append(out, "urlp "+hxs("otpauth://totp/ACME:alice?"+strings.Join(kv, "&")))
+		}
+	}
+	for _, q := range []string{"", "&", "&&", "?", "secret", "secret=", "=JBSWY3DPEHPK3PXP", "secret=A&secret=B", "&secret=JBSWY3DPEHPK3PXP", "secret=JBSWY3DPEHPK3PXP&"} {
+		out = append(out, "urlp "+hxs("otpauth://totp/ACME:alice?"+q), "urlp "+hxs("otpauth://hotp/ACME:alice?"+q))
+	}
+	return out
+}
+
 func genC16(r *rng, n int, hostile bool) []string {
 	var out []string
 	out = append(out, "urlp NIL")
+	out = append(out, queryShapes()...)
 	for i := 0; i < n; i++ {
 		switch r.intn(5) {
 		case 0, 1, 2:
